@@ -35,6 +35,16 @@ def run(ctx):
         for size in (1, 2, 4, 8):
             for _ in range(20 if th else 4):
                 subs.append({"fam": "sub", "st": "gaddr", "calls": [], "a": {"kind": kind, "size": size, "addr": src.scalar(2 if kind == "io" else 8)}})
+    # the generic error status block (counts -> status bits), and the RHCT nodes through their own public constructors
+    for cc in ([0, 0, 0, 0], [1, 0, 0, 0], [2, 0, 0, 0], [255, 255, 255, 255], [0, 1, 0, 0], src.scalar(4)):
+        for uc in ([0, 0, 0, 0], [1, 0, 0, 0], [2, 0, 0, 0], [255, 255, 255, 255], [0, 0, 0, 128], src.scalar(4)):
+            subs.append({"fam": "sub", "st": "gestatus", "calls": [], "a": {"cc": cc, "uc": uc, "severity": src.choice(["Recoverable", "Fatal", "Correctable", "None"])}})
+    for sch in ("Sv39", "Sv48", "Sv57"):
+        subs.append({"fam": "sub", "st": "mmu", "calls": [], "a": {"scheme": sch}})
+    for _ in range(200 if th else 40):
+        g = schema.TableGen(src, "RHCT")
+        g.add("add_isa_string")
+        subs.append({"fam": "sub", "st": "isa", "calls": [], "a": g.ops[-1]["a"]})
     for s in subs:
         s["every_prefix"] = False
     ctx.distinct = tc.distinct(programs + subs)
